@@ -7,7 +7,7 @@
 (* Checked here (design level):                                             *)
 (*   Decreasing   every loop iteration strictly decreases the stack weight  *)
 (*                => best_layout terminates (C12, ranking function)         *)
-(*   NormShrinks  normalisation never increases the weight, is idempotent   *)
+(*   NormShrinks  normalisation at most doubles the weight, is idempotent    *)
 (*   ColOK        the output column is never negative and equals the        *)
 (*                column implied by the emitted stream                      *)
 (*   ModesOK      stack modes are BREAK/FLAT, annotation pops balanced      *)
@@ -54,7 +54,7 @@ ModesOK == /\ \A i \in 1..Len(s.st) : s.st[i][2] \in {BREAK, FLAT} /\ s.st[i][1]
 NormShrinks ==
   LET t == Cases[cs].term
       n == NormDoc(t)
-  IN /\ Wt(n) <= Wt(t)
+  IN /\ Wt(n) <= 2 * Wt(t)
      /\ NormDoc(n) = n \/ n[1] = "fc"
      /\ (n[1] = "fc" => n[4] = 1)
 
